@@ -231,8 +231,11 @@ def store_words(S, regs, start, values, ok):
     mem0 = S.mem
 
     def build(down):
-        """memory after the transfer with every word written at Align(a,4) (down) / at a"""
+        """memory after the transfer with every word written at Align(a,4) (down) / at a: the slots written
+        are a prefix 0 .. BitCount-1, so the result is selected by BitCount among the memories with exactly n
+        slots written (each a plain chain of stores at constant offsets from one base)"""
         S.mem = mem0
+        by_count = {0: mem0}
         for j in range(min(tmax, 16)):
             a = start + 4 * j
             wa = S._align(a, 4) if down else a
@@ -240,19 +243,20 @@ def store_words(S, regs, start, values, ok):
             v = values[cands[-1]]
             for i in reversed(cands[:-1]):
                 v = z3.If(z3.And(bit(regs, i), below[i] == j), values[i], v)
-            written = ok if j < tmin else z3.And(ok, z3.UGT(total, j))
-            old = S._endian(S._read_bytes(wa, 4), 4)
-            S._write_bytes(wa, 4, S._endian(z3.If(written, v, old), 4))
-        return S.mem
+            S._write_bytes(wa, 4, S._endian(v, 4))
+            by_count[j + 1] = S.mem
+        res = by_count[min(tmax, 16)]
+        for n in range(min(tmax, 16) - 1, tmin - 1, -1):
+            res = z3.If(total == n, by_count[n], res)
+        return res
     # MemA write: at a when a is word aligned (otherwise it faults), except in the ARMv6 legacy alignment model
     # (SCTLR.U == 0 && SCTLR.A == 0) where an unaligned a is forced to Align(a,4).  The case split is made once,
     # on the whole memory, so that each case has stores at constant offsets from one base
-    direct = build(False)
+    after = build(False)
     legacy_unal = z3.simplify(z3.And(S._legacy_align(), bits(start, 1, 0) != 0)) if S.arch < 7 else z3.BoolVal(False)
-    if z3.is_false(legacy_unal):
-        S.mem = direct
-    else:
-        S.mem = z3.If(legacy_unal, build(True), direct)
+    if not z3.is_false(legacy_unal):
+        after = z3.If(legacy_unal, build(True), after)
+    S.mem = z3.If(ok, after, mem0)
 
 
 def pc_load(S, guard, value, kind='load'):
